@@ -157,8 +157,8 @@ def trees_close(a, b, rtol=1e-7, atol=1e-9):
         if x.shape != y.shape:
             return False, f'shapes differ: {x.shape} vs {y.shape}'
         if not (np.all(np.isfinite(x)) and np.all(np.isfinite(y))):
-            if not np.array_equal(np.isfinite(x), np.isfinite(y)):
-                return False, 'non-finite entries differ'
+            # NaN/Inf in a replay means the real computation divided by zero or overflowed: never "equal"
+            return False, f'non-finite values in the real computation ({int(np.sum(~np.isfinite(x)))} vs {int(np.sum(~np.isfinite(y)))} entries)'
         scale = max(1.0, float(np.max(np.abs(y), initial=0.0)))
         err = float(np.max(np.abs(x - y), initial=0.0)) / scale
         worst = max(worst, err)
